@@ -48,10 +48,21 @@ func runC14(t *rapid.T) {
 		b.MaxCols, b.MaxRows = 6, 48
 	}
 	b.NoNaN = rapid.Bool().Draw(t, "nonan")
-	fs := gen.DrawFrame(t, b)
+	var fs *gen.FrameSpec
+	big := gen.Rare(t, "big", uint64(core.EnvInt("VERIF_BIG_ODDS", 1500)))
+	if big {
+		// size thresholds (tens of kilobytes of output and more)
+		fs = gen.DrawBigFrame(t, 2500, 3500)
+		core.Probe("big-frame")
+	} else {
+		fs = gen.DrawFrame(t, b)
+	}
 	scr := gen.DrawScramble(t, fs)
 	tr := &c14Trace{Frame: fs, Scramble: scr}
 	tr.PipeCap = pipeCaps[rapid.IntRange(0, len(pipeCaps)-1).Draw(t, "pipecap")]
+	if big && tr.PipeCap < 4096 {
+		tr.PipeCap = 4096 // a byte-wise hand-off of 100 kB would only burn time
+	}
 	core.Eval()
 
 	base := fs.Build()
